@@ -174,6 +174,54 @@ def nested_layer():
     return out
 
 
+def multi_use_layer():
+    """several USE statements of one module in one scope -- at module level (the local names re-exported
+    and referenced two modules further down) and in nested scopes (the local names referenced there).
+    Fortran: the associations of the statements add up (a rename also hides the remote name from a
+    statement without ONLY of the same scope: region 1)."""
+    combos = {
+        "plain_then_only_rename": [use("ma"), use("ma", [("tl", "ta1"), ("pl", "pa1"), ("il", "ia1")])],
+        "only_rename_then_plain": [use("ma", [("tl", "ta1"), ("pl", "pa1"), ("il", "ia1")]), use("ma")],
+        "plain_then_rename": [use("ma"), use("ma", None, [("tl", "ta1")])],
+        "rename_then_plain": [use("ma", None, [("tl", "ta1"), ("pl", "pa1")]), use("ma", prefix="::")],
+        "two_only": [use("ma", [("foo", "foo"), ("pa1", "pa1")]), use("ma", [("tl", "ta1"), ("ia1", "ia1")])],
+        "two_only_same_entity": [use("ma", [("ta1", "ta1"), ("pa1", "pa1")]), use("ma", [("tl", "ta1"), ("pl", "pa1"), ("il", "ia1")])],
+        "plain_twice": [use("ma"), use("MA", prefix="non_intrinsic")],
+        "plain_then_only": [use("ma"), use("ma", [("foo", "foo"), ("ta1", "ta1")])],
+        "only_plain_only_rename": [use("ma", [("foo", "foo")]), use("ma"), use("ma", [("il", "ia1"), ("tl", "ta1")])],
+        "only_rename_twice": [use("ma", [("tl", "ta1")]), use("ma", [("t2", "ta1"), ("pl", "pa1"), ("il", "ia1")])],
+    }
+    names_t, names_p, names_i = ("ta1", "tl", "t2"), ("pa1", "pl"), ("ia1", "il")
+    out = []
+    for cname, us in combos.items():
+        # (a) module scope: mb re-exports, mc takes the names through ONLY, the program references them
+        for default in ("public", "private"):
+            acc = [(n, True) for n in ("tl", "t2", "pl", "il", "ta1", "pa1", "ia1", "foo")] if default == "private" else []
+            mb = mod("mb", default, [("vb1", "var", "public")], acc, us)
+            mb["decls"] += [dict(ref_var("vbt", "type", "tl"), perm=default), dict(ref_var("vbu", "type", "ta1"), perm=default)]
+            mc = mod("mc", "public", [], [], [use("mb", [(n, n) for n in names_t + names_p + names_i + ("foo",)])])
+            prog = mod("main", unit="program", uses=[use("mc")], calls=list(names_p))
+            prog["decls"] = [ref_var(f"vz{k}", "type", n) for k, n in enumerate(names_t)] + \
+                            [ref_var(f"vy{k}", "procptr", n) for k, n in enumerate(names_i)]
+            out.append((f"multi:{cname}:module:{default}", [EXPORTER, mb, mc, prog]))
+        # (b) the same statements in nested scopes of a module that has no USE of its own
+        refs = [("type", n) for n in names_t] + [("procptr", n) for n in names_i] + [("call", n) for n in names_p]
+        body_refs = [r for r in refs if r[0] != "call"]
+        for form in ("modproc", "internal", "ifbody_mod", "host_chain"):
+            mm = mod("mm", "public")
+            if form == "modproc":
+                mm["decls"].append(nested_decl(nd("p", "routine", us, refs), "proc"))
+            elif form == "internal":
+                mm["decls"].append(nested_decl(nd("p", "routine", [], [], [nd("q", "routine", us, refs)]), "proc"))
+            elif form == "ifbody_mod":
+                mm["decls"].append(nested_decl(nd("ext", "ifbody", us, body_refs), "iface"))
+            else:
+                # the first statement in the module procedure, the others in its internal procedure
+                mm["decls"].append(nested_decl(nd("p", "routine", us[:1], [], [nd("q", "routine", us[1:], refs)]), "proc"))
+            out.append((f"multi:{cname}:{form}", [mm, EXPORTER]))
+    return out
+
+
 def witness_absbody():
     return [nested_module("absint_mod", [use("za")], ("ta",), (), ()), NESTED_ZA]
 
@@ -256,32 +304,44 @@ class Runner:
         # region census of all cases
         # failing inputs outside every region first (at most three replays are kept)
         stats["legal_region_free_agreeing_with_spec"] = len(terms) - len(res)
-        for j, code in sorted(res.items(), key=lambda jc: (not (jc[1] & 2 and (jc[1] >> 2) & 31 == 0), jc[0])):
+        stats["differs_from_spec_only_where_the_model_does"] = 0
+        for j, code in sorted(res.items(), key=lambda jc: (not (jc[1] & 2), jc[0])):
             label, units, groups, files = self.cases[idx[j]]
             region = (code >> 2) & 31
+            deviates = (code >> 8) & 1          # impl differs from the Spec somewhere
             if (code >> 7) & 1:
                 stats["not_legal_spec_skipped"] += 1
             for bit in REGION_KEYS:
                 if region & bit:
                     stats["regions"][REGION_KEYS[bit]] = stats["regions"].get(REGION_KEYS[bit], 0) + 1
             payload = {"label": label, "units": units, "files": files, "code": code,
-                       "meaning": "bit0 model!=impl, bit1 impl tables/references differ from the Spec, "
-                                  "bits>=2 region mask (1 rename,2 private,4 only-empty,8 only-dup,16 use in abstract/generic interface body), 32 not legal",
+                       "meaning": "bit0 model!=impl; bit1 impl differs from the Spec at a name / reference where the model "
+                                  "agrees with the Spec (not explained by a recorded defect); bits>=2: region mask "
+                                  "(1 rename,2 private,4 only-empty,8 only-dup,16 use in abstract/generic interface body), "
+                                  "32 not legal, 64 impl differs from the Spec somewhere",
                        "observed": groups[0][0], "runs": [g[1][:3] for g in groups],
                        "file_orders": [m[0] for g in groups for m in g[1][:3]]}
             if code & 2:
+                # a deviation the recorded defects do not explain: a failing input in or out of a region
+                chk.disagreements += 1
+                stats["spec_violation_outside" if region == 0 else "spec_violation_unexplained_in_region"] = \
+                    stats.get("spec_violation_outside" if region == 0 else "spec_violation_unexplained_in_region", 0) + 1
+                chk.violation("failing-input", payload, True)
+            elif deviates:
                 chk.disagreements += 1
                 if region == 0:
+                    # the model itself differs from the Spec outside every region: contradicts C06_partial
                     stats["spec_violation_outside"] += 1
                     chk.violation("failing-input", payload, True)
                 else:
                     stats["spec_violation_in_region"] += 1
+                    stats["differs_from_spec_only_where_the_model_does"] += 1
                     for bit, key in REGION_KEYS.items():
                         if region & bit and not chk.known(key, False):
                             chk.violation("failing-input", payload, True)
             if code & 1:
                 stats["model_mismatch"] += 1
-                if not (code & 2 and region == 0):
+                if not code & 2:
                     chk.violation("broken-correspondence", payload, False)
         return stats
 
@@ -380,6 +440,9 @@ def run(chk):
     #     module, the used module re-exporting from further modules: every file order
     for label, units in nested_layer():
         R.add(label, units, file_orders(rng, units, "all" if len(units) <= 3 or not quick else 3))
+    # 2c. several USE statements of one module in one scope
+    for label, units in multi_use_layer():
+        R.add(label, units, file_orders(rng, units, 1 if quick else 3))
     # 3. random DAGs (mostly legal, region-free), two file orders each
     n_random = 320 if quick else 4000
     for k in range(n_random):
